@@ -12,9 +12,9 @@ HARNESSES = {
 def _runs(tier):
     if tier == "quick":
         return [
-            {"harness": "c08", "args": ["--explorer", "poly", "--topology", "NNC", "--menu", "9"], "budget": 200},
+            {"harness": "c08", "args": ["--explorer", "poly", "--topology", "NNC", "--menu", "14"], "budget": 200},
             {"harness": "c08", "args": ["--explorer", "shapes", "--menu", "9"], "budget": 200},
-            {"harness": "c08", "args": ["--explorer", "poly", "--topology", "C", "--menu", "9"], "budget": 200},
+            {"harness": "c08", "args": ["--explorer", "poly", "--topology", "C", "--menu", "13"], "budget": 200},
             {"harness": "c08", "args": ["--explorer", "pps", "--menu", "5", "--depth", "5"], "budget": 200},
             {"harness": "c08", "args": ["--explorer", "grid"], "budget": 200},
         ]
